@@ -89,6 +89,8 @@ pub enum Dev {
     RepeatLater,
     /// the same request again and again one bucket interval later (refusals must not age the fee history)
     RepeatNextBucket,
+    /// repeat until the allowance is used up, reload the (unchanged) policy, repeat again
+    RepeatAfterReload,
 }
 
 fn dev_kind(d: &Dev) -> String {
@@ -225,6 +227,7 @@ fn run_case(case: &Case) -> Res {
             Dev::Repeat => repeat = 1,
             Dev::RepeatLater => repeat = 2,
             Dev::RepeatNextBucket => repeat = 3,
+            Dev::RepeatAfterReload => repeat = 4,
         }
     }
     if r.skipped {
@@ -472,6 +475,7 @@ fn run_case(case: &Case) -> Res {
     let rounds = match repeat {
         0 => 1,
         3 => 22,
+        4 => 10,
         _ => 2,
     };
     let mut prior: u128 = 0;
@@ -482,6 +486,12 @@ fn run_case(case: &Case) -> Res {
             let now = w.clock.now();
             w.clock.set(now + std::time::Duration::from_secs(3601 + 300));
             prior = 0;
+        }
+        if repeat == 4 && !advanced && r.refused {
+            // the runtime hook for a policy reload, with the policy unchanged: the fees already
+            // counted stay counted
+            node.update_velocity_controls();
+            advanced = true;
         }
         if repeat == 3 && !advanced && r.refused {
             // the request was repeated until the allowance ran out; one bucket (300 s) later
@@ -739,6 +749,7 @@ fn alphabet(c: &Case) -> Vec<Dev> {
     v.push(Dev::Repeat);
     v.push(Dev::RepeatLater);
     v.push(Dev::RepeatNextBucket);
+    v.push(Dev::RepeatAfterReload);
     v
 }
 
